@@ -13,6 +13,7 @@ import SkNet.Lemmas.GetDendroMono
 import SkNet.Lemmas.Builders
 import SkNet.Lemmas.Split
 import SkNet.Lemmas.SplitAgree
+import SkNet.Lemmas.MergeW
 
 namespace SkNet.C07
 open SkNet SkNet.Dendro SkNet.Hier
@@ -433,5 +434,43 @@ theorem split_agrees {α : Type} {D : Dendro α} {n1 n2 : Nat} (h1 : 0 < n1) (h2
     rw [← hR]; exact this
   · have := side_agrees (m := n2) (N := n1 + n2) (off := n1) h2 (by omega) hv
     rw [← hC]; exact this
+
+/-! ### AggregateGraph.merge -/
+
+/-- **`AggregateGraph.merge`** (`merge_invariant`, shared by C07 and C08): on a dict of dicts whose rows have
+    distinct keys, whose key structure and weights are symmetric, whose weights are non-negative and which stores
+    no id `≥ next`, merging two distinct existing nodes `n1`, `n2` into the new node `next`
+    * removes every entry of the rows and columns `n1`, `n2` (no dead key is left),
+    * gives the new node the sums `w(n1, y) + w(n2, y)` (rows) and `w(x, n1) + w(x, n2)` (columns), and the
+      self-loop `w(n1,n1) + w(n1,n2) + w(n2,n1) + w(n2,n2)`,
+    * leaves every other entry unchanged,
+    and the result satisfies the same invariant for `next + 1` (so the replay of a whole dendrogram can be followed). -/
+theorem merge_invariant {nb : Dict (Dict Rat)} {next n1 n2 : Nat} (h : SkNet.Agg.NbInv nb next) (h12 : n1 ≠ n2)
+    (h1 : n1 < next) (h2 : n2 < next) :
+    SkNet.Agg.NbInv (SkNet.Agg.mergeNb nb n1 n2 next) (next + 1) ∧
+    (∀ x y, SkNet.Agg.getEntry (SkNet.Agg.mergeNb nb n1 n2 next) x y =
+      if x = n1 ∨ x = n2 ∨ y = n1 ∨ y = n2 then 0
+      else if x = next ∧ y = next then
+        0 + SkNet.Agg.getEntry nb n1 n1 + SkNet.Agg.getEntry nb n1 n2 + SkNet.Agg.getEntry nb n2 n1 +
+          SkNet.Agg.getEntry nb n2 n2
+      else if x = next then SkNet.Agg.getEntry nb n1 y + SkNet.Agg.getEntry nb n2 y
+      else if y = next then SkNet.Agg.getEntry nb x n1 + SkNet.Agg.getEntry nb x n2
+      else SkNet.Agg.getEntry nb x y) ∧
+    (∀ x y, SkNet.Agg.K (SkNet.Agg.mergeNb nb n1 n2 next) x y =
+      if x = n1 ∨ x = n2 ∨ y = n1 ∨ y = n2 then false
+      else if x = next then (decide (y = next) || SkNet.Agg.K nb n1 y || SkNet.Agg.K nb n2 y)
+      else if y = next then (SkNet.Agg.K nb n1 x || SkNet.Agg.K nb n2 x)
+      else SkNet.Agg.K nb x y) := by
+  have h4 : next ≠ n1 := by omega
+  have h5 : next ≠ n2 := by omega
+  obtain ⟨_, hW, hK⟩ := SkNet.Agg.mergeNb_spec nb h12 h4 h5 h.rows (fun x => h.fresh x next (Nat.le_refl _)) h.sym
+  exact ⟨SkNet.Agg.nbInv_merge h h12 h1 h2, hW, hK⟩
+
+/-- non-vacuity: a triangle 0-1-2 with weights, merging 0 and 1 into node 3 -/
+example : SkNet.Agg.getEntry (SkNet.Agg.mergeNb
+      ([(0, [(1, 2), (2, 1)]), (1, [(0, 2), (2, 3)]), (2, [(0, 1), (1, 3)])] : Dict (Dict Rat)) 0 1 3) 3 2 = 4 ∧
+    SkNet.Agg.getEntry (SkNet.Agg.mergeNb
+      ([(0, [(1, 2), (2, 1)]), (1, [(0, 2), (2, 3)]), (2, [(0, 1), (1, 3)])] : Dict (Dict Rat)) 0 1 3) 3 3 = 4 := by
+  decide +kernel
 
 end SkNet.C07
